@@ -13,6 +13,36 @@ from collections import Counter
 from .loop import SimLoop, running
 
 
+
+class _FalsyItem:
+    """A user object that is false in a boolean context and has length 0 (an empty batch, a zero reading)."""
+    __slots__ = ("n",)
+
+    def __init__(self, n):
+        self.n = n
+
+    def __bool__(self):
+        return False
+
+    def __len__(self):
+        return 0
+
+    def __repr__(self):
+        return f"<falsy item {self.n}>"
+
+
+_NATIVE_FALSY = {3: 0, 6: "", 9: None, 12: (), 15: b""}
+
+
+def _item_value(n):
+    """Items are arbitrary user values, all distinct: mostly the running number, every fourth a false-valued object,
+    and once each the built-in false values (round 12: `if item := q.get_nowait()`)."""
+    if n in _NATIVE_FALSY:
+        return _NATIVE_FALSY[n]
+    if n % 4 == 0:
+        return _FalsyItem(n)
+    return n
+
 class BodyError(Exception):
     pass
 
@@ -206,7 +236,8 @@ class QSim:
         op = st["op"]
         if op == "put":
             self.item_no += 1
-            item = self.item_no
+            # (priority queues order their items: those get the running numbers only)
+            item = self.item_no if isinstance(self.q, asyncio.PriorityQueue) else _item_value(self.item_no)
             if self.q.full():
                 p = {"item": item}
                 self.putters.append(p)
